@@ -75,7 +75,7 @@ def check_corners(t, resp):
 def run(run):
     rng = run.rng
     ok = run.do_ties()
-    quick = run.tier == "quick"
+    quick = run.quick
     C, L = load()
     if quick and ok:
         # stratified subset: every face x quintant x resolution is still hit by the C rows kept
